@@ -149,6 +149,33 @@ func (c *netCase) exec(op string) {
 		c.pub(atoi(f[1])).pt.Announce(c.pfxs[atoi(f[2])])
 	case "pw":
 		c.pub(atoi(f[1])).pt.Withdraw(c.pfxs[atoi(f[2])])
+	case "pclear": // pclear router n: n announce/withdraw pairs that leave the set as it is, then withdraw everything
+		p := c.pub(atoi(f[1]))
+		q := c.pfxs[len(c.pfxs)-1]
+		for i := 0; i < atoi(f[2]); i++ {
+			if p.pt.Vf19Me().Prefixes[q.Hash()] == nil {
+				p.pt.Announce(q)
+				p.pt.Withdraw(q)
+			} else {
+				p.pt.Withdraw(q)
+				p.pt.Announce(q)
+			}
+		}
+		var all []enc.Name
+		for _, e := range p.pt.Vf19Me().Prefixes {
+			all = append(all, e.Name)
+		}
+		for _, n := range all {
+			p.pt.Withdraw(n)
+		}
+	case "prestart": // the remote router restarts: empty set, sequence number far ahead, fresh (reset-only) snapshot
+		i := atoi(f[1])
+		old := c.pub(i)
+		cfg := mkConfig(routerPoolStr[i])
+		eng := newFakeEngine(int64(i) + 200)
+		svs := ndn_sync.NewSvSync(eng, cfg.PrefixTableSyncPrefix(), func(ndn_sync.SvSyncUpdate) {})
+		svs.SetSeqNo(cfg.RouterName(), old.pt.Vf19Me().Latest+1000)
+		c.pubs[i] = &remotePub{cfg: cfg, pt: table.NewPrefixTable(cfg, eng, svs)}
 	case "psync":
 		p := c.pub(atoi(f[1]))
 		c.r.Vf19OnPfxSyncUpdate(ndn_sync.SvSyncUpdate{NodeId: p.cfg.RouterName(), High: p.pt.Vf19Me().Latest})
@@ -288,6 +315,29 @@ func genNetCase(w *bufio.Writer, rng *rand.Rand, k int, budget int) []string {
 				if rng.Intn(6) != 0 {
 					do(fmt.Sprintf("pfetch %d all", router))
 				}
+			}
+		case r < 83: // everything withdrawn during a long gap, or a restart: the next fetch is a reset-only snapshot
+			router := 1 + rng.Intn(nR-1)
+			if len(have[router]) == 0 || rng.Intn(4) == 0 {
+				// make sure there is something to lose, and that we hold it
+				x := rng.Intn(len(c.pfxs))
+				if have[router] == nil {
+					have[router] = map[int]bool{}
+				}
+				have[router][x] = true
+				do(fmt.Sprintf("pa %d %d", router, x))
+				do(fmt.Sprintf("psync %d", router))
+				do(fmt.Sprintf("pfetch %d all", router))
+			}
+			if rng.Intn(3) == 0 {
+				do(fmt.Sprintf("prestart %d", router))
+			} else {
+				do(fmt.Sprintf("pclear %d %d", router, []int{1, 49, 51, 60}[rng.Intn(4)]))
+			}
+			have[router] = map[int]bool{}
+			if rng.Intn(6) != 0 {
+				do(fmt.Sprintf("psync %d", router))
+				do(fmt.Sprintf("pfetch %d all", router))
 			}
 		case r < 86:
 			do(fmt.Sprintf("psync %d", 1+rng.Intn(nR-1)))
